@@ -1,5 +1,13 @@
 import ChiaModel.Props.C07
+#print axioms ChiaModel.C07.legacy_accepts_native_accepts
+#print axioms ChiaModel.C07.legacy_accepts_native_accepts_size
+#print axioms ChiaModel.C07.native_accepts_legacy
+#print axioms ChiaModel.C07.native_rejects_legacy_rejects
 #print axioms ChiaModel.C07.simple_generator_rules
 #print axioms ChiaModel.C07.legacy_cost
 #print axioms ChiaModel.C04.limit_exact
+#print axioms ChiaModel.C04.native_limit_exact
+#print axioms ChiaModel.C04.legacy_limit_exact
 #print axioms ChiaModel.C02.accepted_invariants
+#print axioms ChiaModel.C02.native_invariants
+#print axioms ChiaModel.C02.legacy_invariants
